@@ -233,7 +233,24 @@ func runActivation(rc *core.RunCtx) {
 			id := ids[g.IntN(len(ids))]
 			host := m.active[id]
 			rc.Scen("op%d: %s.Deactivate(%s)", op, by.id, id)
-			by.c.Deactivate(actor.NewPID(host, id))
+			var hostNode *node
+			for _, nd := range live {
+				if nd.addr == host {
+					hostNode = nd
+				}
+			}
+			if hostNode != nil && g.Bool(0.3) {
+				// the actor is busy when it is deactivated, and the message queued
+				// behind the stop request makes it crash while it drains
+				rc.Scen("op%d: (%s is busy; a message that makes it panic is queued behind the stop request)", op, id)
+				pid := actor.NewPID(host, id)
+				hostNode.c.Engine().Send(pid, busyMsg{})
+				by.c.Deactivate(pid)
+				simrt.WaitQuiet(10 * time.Millisecond)
+				hostNode.c.Engine().Send(pid, boomMsg{})
+			} else {
+				by.c.Deactivate(actor.NewPID(host, id))
+			}
 			settle()
 			delete(m.active, id)
 			for _, nd := range live {
